@@ -9,6 +9,7 @@ filter, independent of the binary search.
 import TzVerif.Model.TimeZone
 import TzVerif.Spec.Zone
 import TzVerif.Proofs.Table
+import TzVerif.Proofs.SrcEqZone
 
 namespace TzVerif.C03
 open TzVerif.Model
@@ -65,5 +66,30 @@ example :
     let z : TimeZone := { transitions := [⟨100, 1⟩, ⟨200, 0⟩], localTimeTypes := [t0, t1], leapSeconds := [], extraRule := none }
     z.findLocalTimeType 150 = .ok t1 ∧ z.findLocalTimeType 99 = .ok t0 ∧ z.findLocalTimeType 200 = .error .noAvailableLocalTimeType := by
   decide +kernel
+
+/-! ### The same about the source text
+`TzVerif.Src.*` is the Rust source translated to Lean on every run (tools/rs2lean.py, DESIGN §13); the
+equalities below tie every theorem of this file, which is about the model, to the code as it is now. -/
+
+theorem translated_source_is_the_model :
+    (∀ (z : TimeZone) u, Src.TimeZoneRef.find_local_time_type z u = z.findLocalTimeType u) ∧
+    (∀ (z : TimeZone) u, Src.TimeZoneRef.unix_time_to_unix_leap_time z u = unixTimeToUnixLeapTime z.leapSeconds u) ∧
+    (∀ (l : List Transition) x, Proofs.SrcEq.bsOfExcept (Src.binary_search_transitions l x) = binarySearch (l.map (·.unixLeapTime)) x) ∧
+    (∀ u ns (z : TimeZone), Src.DateTime.from_timespec u ns z = DateTime.fromTimespec u ns z) :=
+  ⟨Proofs.SrcEq.find_local_time_type_eq, Proofs.SrcEq.unix_time_to_unix_leap_time_eq, Proofs.SrcEq.binary_search_transitions_eq,
+   Proofs.SrcEq.dt_from_timespec_eq⟩
+
+theorem no_transitions_src (z : TimeZone) (u : Int) (h : z.transitions = []) :
+    Src.TimeZoneRef.find_local_time_type z u =
+      (match z.extraRule with
+       | some r => r.findLocalTimeType u
+       | none => .ok (z.localTimeTypes.getD 0 default)) := by
+  rw [Proofs.SrcEq.find_local_time_type_eq]; exact no_transitions z u h
+
+theorem local_date_time_src (u ns : Int) (z : TimeZone) (d : DateTime) (h : Src.DateTime.from_timespec u ns z = .ok d) :
+    d.unixTime = u ∧ d.nanoseconds = ns ∧ Src.TimeZoneRef.find_local_time_type z u = .ok d.localTimeType := by
+  rw [Proofs.SrcEq.dt_from_timespec_eq] at h
+  rw [Proofs.SrcEq.find_local_time_type_eq]
+  exact ⟨(local_date_time u ns z d h).1, (local_date_time u ns z d h).2.1, (local_date_time u ns z d h).2.2.1⟩
 
 end TzVerif.C03
